@@ -2,32 +2,33 @@
 # seedlab.sh "<seed-id> <check>[ <check>...]" ...
 # Runs quick checks against seeded changes WITHOUT touching /repo or /verif: both trees are copied to /var/tmp/sl and bind-mounted over
 # /repo and /verif inside a private mount namespace (all paths, hence all failure keys, stay identical). Results: one JSON line per run in
-# /var/tmp/sl/results.jsonl (tools/seedlab_collect.py merges them into seeded/<id>/meta.json). Exploration aid only; nothing registered
+# $L/results.jsonl (tools/seedlab_collect.py merges them into seeded/<id>/meta.json). Exploration aid only; nothing registered
 # in MANIFEST.json uses it. Remove /var/tmp/sl when done.
 set -u
-L=/var/tmp/sl
+L=${SL:-/var/tmp/sl}
+export L
 mkdir -p $L/repo $L/verif
 rsync -a --delete --exclude _build --exclude .git /repo/ $L/repo/
 rsync -a --delete --exclude replays --exclude .git /verif/ $L/verif/
 HC=$(git -C /verif rev-parse --short HEAD)
 export HC
 unshare -m bash -s -- "$@" <<'EOF'
-mount --bind /var/tmp/sl/repo /repo
-mount --bind /var/tmp/sl/verif /verif
+mount --bind $L/repo /repo
+mount --bind $L/verif /verif
 cd /verif
 for spec in "$@"; do
   set -- $spec
   seed=$1; shift
-  ( cd /repo && patch -s -p1 < /verif/seeded/$seed/patch.diff ) || { echo "{\"seed\":\"$seed\",\"error\":\"patch does not apply\"}" >> /var/tmp/sl/results.jsonl; continue; }
+  ( cd /repo && patch -s -p1 < /verif/seeded/$seed/patch.diff ) || { echo "{\"seed\":\"$seed\",\"error\":\"patch does not apply\"}" >> $L/results.jsonl; continue; }
   for chk in "$@"; do
     t0=$(date +%s)
-    ./check $chk > /var/tmp/sl/$seed.$chk.log 2>&1
+    ./check $chk > $L/$seed.$chk.log 2>&1
     ex=$?
     t1=$(date +%s)
-    python3 - "$seed" "$chk" "$ex" "$((t1-t0))" <<'PY' >> /var/tmp/sl/results.jsonl
+    python3 - "$seed" "$chk" "$ex" "$((t1-t0))" <<'PY' >> $L/results.jsonl
 import json, os, sys
 seed, chk, ex, wall = sys.argv[1], sys.argv[2], int(sys.argv[3]), int(sys.argv[4])
-lines = [l for l in open("/var/tmp/sl/%s.%s.log" % (seed, chk), errors="replace").read().splitlines() if not l.startswith("KNOWN-FINDING")]
+lines = [l for l in open(os.environ["L"] + "/%s.%s.log" % (seed, chk), errors="replace").read().splitlines() if not l.startswith("KNOWN-FINDING")]
 keys = [l.strip()[:200] for l in lines if l.strip().startswith("key=")]
 print(json.dumps({"seed": seed, "check": chk, "tier": "quick", "seed_value": 1, "exit": ex, "caught": ex == 1 and any(l.startswith("VIOLATION") for l in lines),
                   "first_keys": keys[:3], "wall_s": wall, "harness_commit": os.environ.get("HC", "")}))
